@@ -67,6 +67,7 @@ def declare(rep):
     rep.rule("R01.4", "set methods and adaptors: same rule through their delegation")
     rep.rule("R01.5", "no exported signature returns &mut Option<T>, &mut Node, &mut Vec<Node>, &mut Table")
     rep.rule("R01.7", "(shared with C11) TrieViewMut::{value_mut, prefix_value_mut, set, remove} act on the view's own node; they refuse at a virtual position")
+    rep.rule("R01.8", "(shared with C16) every structural mutator incl. retain / remove_children / clear preserves the slot partition")
     rep.rule("R01.6", "no slot leaves the tree while it may still hold a value or valued descendants")
 
 
@@ -358,6 +359,12 @@ def run_config(ctx, rep, cfg, F):
                 rep.bad("R01.5", F.short_of[f["path"]], "returns &mut " + badty, "exported function %s returns %s" % (F.short_of[f["path"]], out), config=cfg)
     if not leaks:
         rep.ok("R01.5", "all exported signatures", "no leaking &mut")
+    # ---- R01.8: the induction hypothesis of all rules above — a well-formed arena — is preserved by every structural mutator of
+    # the alphabet, including retain / remove_children / clear (the slot-partition rules of C16, shared): a slot freed twice or
+    # freed while linked makes a LATER insert overwrite or lose a stored entry
+    from .. import engine
+    from . import c16
+    c16.run_config(ctx, engine.Renamed(rep, lambda r: "R01.8" if r.startswith("R16") else r), cfg, F)
 
 
 def finalize(ctx, rep):
